@@ -640,6 +640,8 @@ def c18_describe(inp, obs):
     p = inp[2]
     if p[0] == 5:
         return 'uniform choice, flavour %s, source %s, %d draws; observed [num_choices, [[value, count]..]] or [-7]=EmptySlice' % (C18_FL[p[1]], p[2], inp[1])
+    if p[0] == 6:
+        return 'uniform choice, flavour %s, source = the %d members 0..%d, %d draws; observed [num_choices, [[chosen value mod %d (-1: not a member), count]..]]' % (C18_FL[p[1]], p[2], p[2] - 1, inp[1], p[3])
     return '%s of size %d, %d draws; observed [[length, elements ok, count]..]' % (C18_K[p[0]], p[1], inp[1])
 def c18_hist_of(inp, obs):
     return [(v, k) for v, k in obs[1]] if isinstance(obs, list) and len(obs) == 2 and isinstance(obs[1], list) else []
@@ -647,9 +649,9 @@ PROPS['C18'] = dict(
     corr='CorrC18', judge='(judge_cases judge)', post_batch=make_stat_post('C18', lambda inp, oc: oc, c18_hist_of), cov_extra=stat_cov_extra,
     coq_targets=['theories/Props/C18.vo', 'theories/Corr/CorrC18.vo'],
     describe=c18_describe, no_shrink=True, nontrivial=lambda i, o: True,
-    classify=lambda i, o: ('choice:%s' % C18_FL[i[2][1]]) if i[2][0] == 5 else ('collection:%s' % C18_K[i[2][0]]),
-    bucket=lambda i, o: [('flavour=%s' % C18_FL[i[2][1]]) if i[2][0] == 5 else ('collection=%s' % C18_K[i[2][0]]), 'size=%d' % (len(i[2][2]) if i[2][0] == 5 else i[2][1])],
-    rule='collection generators for Vec, Bitstring (both constructors), Plushy and a population of scored individuals at sizes 0, 1, 2, 17 and 1000 (length of every sample and membership of every element compared exactly); uniform choices built through all 15 conversion flavours (Vec / array / slice, owning / borrowing / cloning, IntoDistribution / ToDistribution, and the uniform_distribution_of! macro) from empty sources (EmptySlice expected) and from sources of 1..6 members incl. duplicates: num_choices compared exactly, members exactly (zero-probability values are violations), frequencies against 1/len per index.',
+    classify=lambda i, o: ('choice:%s' % C18_FL[i[2][1]]) if i[2][0] in (5, 6) else ('collection:%s' % C18_K[i[2][0]]),
+    bucket=lambda i, o: [('flavour=%s' % C18_FL[i[2][1]]) if i[2][0] in (5, 6) else ('collection=%s' % C18_K[i[2][0]]), 'size=%d' % (len(i[2][2]) if i[2][0] == 5 else i[2][2] if i[2][0] == 6 else i[2][1])],
+    rule='collection generators for Vec, Bitstring (both constructors), Plushy and a population of scored individuals at sizes 0, 1, 2, 17 and 1000 (length of every sample and membership of every element compared exactly); uniform choices built through all 15 conversion flavours (Vec / array / slice, owning / borrowing / cloning, IntoDistribution / ToDistribution, and the uniform_distribution_of! macro) from empty sources (EmptySlice expected) and from sources of 1..6 members incl. duplicates: num_choices compared exactly, members exactly (zero-probability values are violations), frequencies against 1/len per index; sources of 3*2^23, 2^25 and 2^24+1 members through the Vec and slice flavours, the chosen index judged by residue classes (mod 3, 2, 5) against the class law proved in C18_choice_uniform_classes.',
     trusted=['rand Uniform / slice::Choose as oracles', 'statistical tie with delta = 1e-12 per cell'],
     assumptions=[],
     level_text='Theorems (Props/C18.v): a collection generator yields exactly n elements each drawn from the element generator (and is total); a uniform choice returns only indices of the source, each with probability exactly 1/length (duplicates handled by index), and an empty source is rejected at construction. Tied to the code by exact length / membership / num_choices checks for every conversion flavour and by seeded frequencies.',
